@@ -6,7 +6,11 @@ negation flags) runs after pre-items that set state, rename a field and change t
 detection items carry the suffix / disappeared after `ProcessingPipeline.apply(rule)`, whether the probe is recorded
 as applied, and the field names of all items afterwards.  A keyword stream runs the probes on a rule that also has
 detection items WITHOUT a field name (keyword lists, single keywords, keywords next to field maps): include_fields
-never holds there, exclude_fields always, and a state condition as everywhere else.
+never holds there, exclude_fields always, and a state condition as everywhere else.  A value stream runs the probes on
+a rule whose value lists mix strings, numbers and booleans in every order, whose strings contain ESCAPED asterisks / question
+marks / backslashes (literal characters, not wildcards) next to real wildcards, and whose field references come singly and
+as a list; the fields REFERENCED in the values after the pipeline are part of the observation in every stream (a field-name
+transformation renames a referenced field iff the field-name conditions hold for that name).
 
 Expected: the Lean specification `Spec/PipeConds.lean` (documented meaning of every condition, documented effect of
 the pre-items on what later conditions see) evaluated by the driver op `gate.case` on the ORIGINAL rule document and
@@ -47,7 +51,11 @@ RULE = ("probe item with three condition groups x {0,1,2 conditions} drawn from 
         "condition group with >= 1 condition"
         "; optionally after the same pipeline object converted another rule, with a nested pipeline that reads and overrides state, and with a drop probe on a rule with field references"
         "; keyword stream: drop / suffix probe with all three groups on a rule that also has keyword detection items (no field name: "
-        "a list of keywords, a single keyword, keywords mixed with field maps)")
+        "a list of keywords, a single keyword, keywords mixed with field maps)"
+        "; value stream: suffix / drop probe on a rule with value lists of mixed kinds (string / number / boolean in every order; "
+        "contains_detection_item and match_value looking for a value listed AFTER values of other kinds), strings with escaped "
+        "'*' / '?' / backslash next to real wildcards (contains_wildcard, match_value, match_string on the plain text), field "
+        "references singly and as a list; observable in all streams: the referenced field names after the pipeline")
 ASSUMPTIONS = [
     "trusted Python: reading of the rule document into the specification's World (flat detection items, value kinds, attribute types) and the pipeline description",
     "regular-expression matching (match_string, include_fields/exclude_fields in re mode) is a parameter of the Lean specification: a table computed by Python re.match per request; the driver refuses a request whose table lacks an entry it needs",
@@ -56,6 +64,7 @@ ASSUMPTIONS = [
     "rule_attribute: numeric strings are [+-]?digits, dates YYYY-MM-DD; attributes holding None/objects count as unsupported",
     "match_value with a boolean parameter is not generated against items holding the numbers 0/1",
     "1:1 field_name_mapping only; the rule's fields list is not generated; keyword items (field None) in the keyword stream only",
+    "strings in the rule document: a backslash escapes '*', '?' and itself and is a plain character elsewhere (Sigma specification); the plain text that match_string sees writes a literal '*' / '?' as '\\*' / '\\?' (SigmaString.to_plain, Model.SStr.toPlain)",
     "conditions of an item are evaluated on the world left by the EARLIER items; the code's own tracking moves while the probe runs are not observable on the generated documents",
 ]
 
@@ -73,6 +82,18 @@ RULEDOC_REF["detection"]["sel"]["fieldG|fieldref"] = "fieldB"
 RULEDOC_KW = copy.deepcopy(RULEDOC)
 RULEDOC_KW["detection"].update({"kw": ["plain", "x*", 1], "mix": [{"fieldA": "zz"}, "valueA"], "one": "y",
                                 "condition": "sel and not flt or kw or mix or one"})
+# a rule whose value lists mix kinds in every order, whose strings contain escaped special characters, and with a LIST of references.
+# In the document text a backslash escapes '*', '?' and itself; elsewhere it is a plain character.
+RULEDOC_VAL = copy.deepcopy(RULEDOC_REF)
+RULEDOC_VAL["detection"]["sel"].update({
+    "fieldJ": ["a\\*b", "c\\?"],                    # a literal asterisk, a literal question mark: no wildcard at all
+    "fieldK": ["q\\?*", "r?"],                       # every value has a wildcard (the first also a literal question mark)
+    "fieldL": ["d\\\\*", "lit\\*"],                  # an escaped backslash followed by a wildcard; a literal asterisk
+    "fieldM": "C:\\Win\\x\\?",                      # backslashes as plain characters, then a literal question mark
+    "fieldN": [4624, "svc", True, "x*"],            # number, string, boolean, string
+    "fieldP": ["svc", 7, False, "s\\*"],             # string, number, boolean, string with a literal asterisk
+    "fieldR|fieldref": ["fieldJ", "fieldA"],        # two references in one item
+})
 # a rule converted BEFORE the probed one with the same pipeline object: nothing of it may remain visible
 PRIOR_DOC = {"title": "prior", "level": "low", "status": "stable", "date": "2020-02-02", "tags": [], "references": ["zz"], "score": 9, "ratio": 0.5,
              "logsource": {"category": "zzz", "product": "other"},
@@ -94,6 +115,14 @@ RULE_CONDS = [
     {"type": "contains_detection_item", "field": "fieldA", "value": "nope"}, {"type": "contains_detection_item", "field": "fieldD", "value": "1"},
     {"type": "contains_detection_item", "field": "fieldD", "value": 1.0}, {"type": "contains_detection_item", "field": "fieldH", "value": True},
     {"type": "contains_detection_item", "field": "fieldD", "value": True}, {"type": "contains_detection_item", "field": "mappedB", "value": "x*"},
+    # the value looked for is listed AFTER values of other kinds / is written with escaped special characters
+    {"type": "contains_detection_item", "field": "fieldD", "value": "x1"}, {"type": "contains_detection_item", "field": "fieldH", "value": 2},
+    {"type": "contains_detection_item", "field": "fieldN", "value": "svc"}, {"type": "contains_detection_item", "field": "fieldN", "value": True},
+    {"type": "contains_detection_item", "field": "fieldN", "value": "x*"}, {"type": "contains_detection_item", "field": "fieldP", "value": 7},
+    {"type": "contains_detection_item", "field": "fieldP", "value": False}, {"type": "contains_detection_item", "field": "fieldP", "value": "s\\*"},
+    {"type": "contains_detection_item", "field": "fieldP", "value": "s*"}, {"type": "contains_detection_item", "field": "fieldJ", "value": "c\\?"},
+    {"type": "contains_detection_item", "field": "fieldJ", "value": "c?"}, {"type": "contains_detection_item", "field": "fieldN", "value": 7},
+    {"type": "contains_detection_item", "field": "fieldL", "value": "d\\\\*"}, {"type": "contains_field", "field": "fieldN"},
     {"type": "processing_item_applied", "processing_item_id": "state"}, {"type": "processing_item_applied", "processing_item_id": "map"},
     {"type": "processing_item_applied", "processing_item_id": "nothere"}, {"type": "processing_item_applied", "processing_item_id": "ls"},
     {"type": "processing_state", "key": "k", "val": "v"}, {"type": "processing_state", "key": "k", "val": "w", "op": "ne"},
@@ -139,6 +168,12 @@ DET_CONDS = [
     {"type": "match_value", "cond": "any", "value": "valueA"}, {"type": "match_value", "cond": "any", "value": 1},
     {"type": "match_value", "cond": "any", "value": "x*"}, {"type": "match_value", "cond": "all", "value": "valueA"},
     {"type": "match_value", "cond": "any", "value": 2}, {"type": "match_value", "cond": "any", "value": "1"},
+    {"type": "match_value", "cond": "any", "value": "a\\*b"}, {"type": "match_value", "cond": "any", "value": "c?"},
+    {"type": "match_value", "cond": "any", "value": 7}, {"type": "match_value", "cond": "any", "value": "svc"},
+    {"type": "match_value", "cond": "any", "value": "r?"},
+    # the plain text of a value writes a literal asterisk / question mark with a backslash
+    {"type": "match_string", "cond": "any", "pattern": ".*\\\\[*?]"}, {"type": "match_string", "cond": "all", "pattern": "[^*?]*$"},
+    {"type": "match_string", "cond": "any", "pattern": "[a-z]+[*?]", "negate": True},
     {"type": "contains_wildcard", "cond": "any"}, {"type": "contains_wildcard", "cond": "all"},
     {"type": "is_null", "cond": "all"}, {"type": "is_null", "cond": "any"},
     {"type": "processing_item_applied", "processing_item_id": "map"}, {"type": "processing_item_applied", "processing_item_id": "nothere"},
@@ -225,6 +260,17 @@ def gen_cases(tier, seed, gen, effort):
         if rnd2.random() < 0.2:
             c["prior"] = True
         cases.append(c)
+    # value stream: value lists of mixed kinds, escaped special characters, single and listed field references
+    rnd3 = random.Random(seed * 3049 + 131313)
+    for _ in range((1500 if not thorough else 20000) * effort):
+        pre = {"state": rnd3.random() < 0.7, "state_cond": rnd3.choice([None, {"type": "logsource", "category": "cat"}, {"type": "logsource", "category": "zzz"}]),
+               "map": rnd3.random() < 0.5, "logsrc": rnd3.random() < 0.3, "n5": rnd3.random() < 0.3, "nest": rnd3.random() < 0.15}
+        c = {"pre": pre, "rule": gen_group(rnd3, RULE_CONDS), "det": gen_group(rnd3, DET_CONDS), "field": gen_group(rnd3, FIELD_CONDS), "doc": "val"}
+        if rnd3.random() < 0.35:
+            c["probe"] = "drop"
+        if rnd3.random() < 0.1:
+            c["prior"] = True
+        cases.append(c)
     return cases, False
 
 
@@ -233,6 +279,8 @@ def doc_of(case):
         return CORR_DOC
     if case.get("doc") == "kw":
         return RULEDOC_KW
+    if case.get("doc") == "val":
+        return RULEDOC_VAL
     return RULEDOC_REF if case.get("probe") == "drop" or case.get("doc") == "ref" else RULEDOC
 
 
@@ -280,6 +328,7 @@ def run_impl(case):
     from sigma.rule import SigmaRule
     from sigma.processing.pipeline import ProcessingPipeline
     from sigma.rule.detection import SigmaDetection
+    from sigma.types import SigmaFieldReference
     try:
         pl = ProcessingPipeline.from_dict(pipeline_dict(case))
     except Exception as e:
@@ -298,7 +347,7 @@ def run_impl(case):
             return {"outcome": "ok", "fields": [], "dets": {}, "applied": sorted(x for x in pl.applied_ids if x != "nst"), "prior_error": prior_error, "group_by": list(rule.group_by or [])}
         rule = SigmaRule.from_dict(copy.deepcopy(doc_of(case)))
         pl.apply(rule)
-        out = []
+        out, refs_out = [], []
 
         def walk(d):
             for it in d.detection_items:
@@ -306,12 +355,14 @@ def run_impl(case):
                     walk(it)
                 else:
                     out.append(it.field)
-        dets = {}
+                    refs_out.append([v.field for v in it.value if isinstance(v, SigmaFieldReference)])
+        dets, refs = {}, {}
         for name, d in rule.detection.detections.items():      # every detection, in document order
             n0 = len(out)
             walk(d)
             dets[name] = out[n0:]
-        return {"outcome": "ok", "fields": out, "dets": dets, "applied": sorted(x for x in pl.applied_ids if x != "nst"), "prior_error": prior_error}
+            refs[name] = refs_out[n0:]      # per item: the fields its values refer to, after the pipeline
+        return {"outcome": "ok", "fields": out, "dets": dets, "refs": refs, "applied": sorted(x for x in pl.applied_ids if x != "nst"), "prior_error": prior_error}
     except Exception as e:
         return {"outcome": outcome_of_exception(e), "stage": "apply", "msg": str(e)[:160], "prior_error": prior_error}
 
@@ -455,7 +506,7 @@ def re_table(case):
         if f is not None:
             names.add(f)
         for v in vals:
-            (names if ref else strings).add(v) if isinstance(v, str) else None
+            (names if ref else strings).add(v if ref else plain_text(v)) if isinstance(v, str) else None
     names |= {"mappedB"}
     vp = {c["pattern"] for c in case["det"]["conds"] if c["type"] == "match_string"}
     fp = {p for c in case["field"]["conds"] if c.get("mode") == "re" for p in c["fields"]}
@@ -483,7 +534,7 @@ def alt_request(case):
         rule_group = dict(case["rule"], conds=[true_leaf if d70_leaf(c) else c for c in case["rule"]["conds"]])
     seeded = None
     doc = doc_of(case)
-    if case["pre"]["map"] and doc is RULEDOC_REF and any(c["type"] == "processing_item_applied" and c["processing_item_id"] == "map"
+    if case["pre"]["map"] and (doc is RULEDOC_REF or doc is RULEDOC_VAL) and any(c["type"] == "processing_item_applied" and c["processing_item_id"] == "map"
                                                           for c in case["det"]["conds"] + case["field"]["conds"]):
         quirks.append("D72")
         seeded = {(d, f): ["map"] for d, f, vals, ref in flat_items(doc) if ref and not any(v == "fieldB" for v in vals)}
@@ -553,12 +604,33 @@ def state_cond(w, c):
     return {"gte": sv >= v, "gt": sv > v, "lte": sv <= v, "lt": sv < v}[op]
 
 
+def scan(text):
+    """a string of the rule document, character by character: ("c", x) a plain character, ("w", x) a wildcard.
+    A backslash escapes '*', '?' and itself; before anything else (and at the end) it is a plain character."""
+    out, i = [], 0
+    while i < len(text):
+        ch = text[i]
+        if ch == "\\" and i + 1 < len(text) and text[i + 1] in "*?\\":
+            out.append(("c", text[i + 1]))
+            i += 2
+            continue
+        out.append(("w", ch) if ch in "*?" else ("c", ch))
+        i += 1
+    return out
+
+
+def plain_text(text):
+    """the plain text of a string value (what match_string sees): wildcards as they are, a literal '*' / '?' with a backslash"""
+    return "".join(x if k == "w" or x not in "*?" else "\\" + x for k, x in scan(text))
+
+
 def value_eq(v, p):
-    """a detection item value equals a parameter: same kind (string / number / boolean) and equal"""
+    """a detection item value equals a parameter: same kind (string / number / boolean) and equal; strings are equal when
+    they are the same sequence of plain characters and wildcards"""
     if isinstance(v, bool) or isinstance(p, bool):
         return isinstance(v, bool) and isinstance(p, bool) and v == p
     if isinstance(v, str) or isinstance(p, str):
-        return isinstance(v, str) and isinstance(p, str) and v == p
+        return isinstance(v, str) and isinstance(p, str) and scan(v) == scan(p)
     return v is not None and v == p
 
 
@@ -617,7 +689,7 @@ def rule_cond(w, c):
 
 
 def has_wild(v):
-    return isinstance(v, str) and bool(re.search(r"(?<!\\)[*?]", v))
+    return isinstance(v, str) and any(k == "w" for k, _ in scan(v))
 
 
 def det_cond(w, it, c):
@@ -626,7 +698,7 @@ def det_cond(w, it, c):
     vals = it["values"] + [("ref", x) for x in it["refs"]]       # a reference is a value that no value condition recognises
     if t == "match_string":
         def m(v):
-            r = isinstance(v, str) and re.match(c["pattern"], v) is not None
+            r = isinstance(v, str) and re.match(c["pattern"], plain_text(v)) is not None
             return (not r) if c.get("negate") else r
         return f(m(v) for v in vals)
     if t == "match_value":
@@ -737,6 +809,14 @@ def judge(case, impl, reply):
         for d in impl["dets"]:
             if impl["dets"][d] != after.get(d, []):
                 return f"field names of detection {d} after the pipeline: {impl['dets'][d]}, expected {after.get(d, [])} for pipeline {pipeline_dict(case)['transformations']}"
+        after_refs = {}
+        for a in rep["after"]:
+            after_refs.setdefault(uncps_(a["det"]), []).append([uncps_(x) for x in a.get("refs", [])])
+        for d in impl.get("refs", {}):
+            if impl["refs"][d] != after_refs.get(d, []):
+                return (f"fields referenced (|fieldref) in the values of detection {d} after the pipeline, item by item ({impl['dets'][d]}): {impl['refs'][d]}, expected {after_refs.get(d, [])}: "
+                        f"a field-name transformation renames a referenced field iff its detection-item and field-name conditions hold on the item and its field-name conditions "
+                        f"(linking / negation / expression) hold for the referenced name; pipeline {pipeline_dict(case)['transformations']}")
         return None
     what = compare(reply)
     if what is not None:
